@@ -1,7 +1,8 @@
 /-
-  C08 — timeseries operators equal the pointwise operation on aligned operands (Series and scalars).
-  Property theorems only; helper lemmas live in PygProofs/Lemmas/OpsLemmas.lean and AlignLemmas.lean.
-  DataFrame operands (column policy, neutral element) are not in the Lean model: see pv/props/c08.py `check_frames`.
+  C08 — timeseries operators equal the pointwise operation on aligned operands: Series and scalars (PygModel/Ops.lean),
+  multi-column DataFrames with the column policies 'ij' / 'oj' and the neutral element of a missing column
+  (PygModel/OpsF.lean), and on Series / scalars the comparisons, min_/max_ and pow_ for natural exponents (PygModel/OpsX.lean).
+  Property theorems only; helper lemmas live in PygProofs/Lemmas/OpsLemmas.lean, OpsFLemmas.lean, OpsXLemmas.lean, AlignLemmas.lean.
 -/
 import PygModel.Ops
 import PygProofs.Lemmas.OpsLemmas
